@@ -32,7 +32,7 @@ RULE = (
 LEVEL_TEXT = "all compositions of up to 2 (quick) / 3 (thorough) presentation edges over the full edge alphabet, for 13 model classes"
 ASSUMPTIONS = [
     "one 9x(3x2) base data set per spectrum (geometric; flat_pair compared through projectors) stands for 'all inputs'",
-    "PYTHONHASHSEED is fixed to 0 by ./check (the thorough tier's hash-seed edge is run by tools/hashseed_sweep.sh, not inside this check)",
+    "PYTHONHASHSEED is fixed to 0 by ./check; the thorough tier re-explores the quick graph in fresh interpreters with PYTHONHASHSEED = 1 and 2 (environment edge)",
     "order-dependent methods (ExtendedEOF, OPA, POP, HilbertEOF, EOFBootstrapper) are not given sample permutations",
 ]
 TALLY_KEYS = ("model",)
@@ -344,8 +344,34 @@ def _cmp_projector(a, b, what):
     return out
 
 
+def _hashseed_edge(seed):
+    """Environment edge of the thorough tier: string hashing order (set(dims) & set(...) in xeofs) must not matter.
+    The quick graph is re-explored in fresh interpreters with PYTHONHASHSEED = 1, 2 (this process runs with 0)."""
+    import os
+    import subprocess
+    import tempfile
+
+    out = []
+    if os.environ.get("XMC_NO_HASHSWEEP"):
+        return out, []
+    here = os.path.dirname(os.path.dirname(os.path.dirname(os.path.abspath(__file__))))
+    ran = []
+    for h in ("1", "2"):
+        with tempfile.TemporaryDirectory() as td:
+            env = dict(os.environ, PYTHONHASHSEED=h, XMC_NO_HASHSWEEP="1", XMC_EVIDENCE_DIR=td, XMC_REPLAY_DIR=os.path.join(td, "rp"), VERIF_SEED=str(seed), XMC_SUMMARY="1")
+            p = subprocess.run([os.path.join(here, "check"), "C07", "quick"], env=env, capture_output=True, text=True)
+            ran.append(dict(PYTHONHASHSEED=int(h), exit=p.returncode))
+            if p.returncode != 0:
+                sigs = [l for l in p.stdout.splitlines() if l.startswith("SUMMARY")][:3]
+                out.append(viol("hashseed_dependent", "any", "PYTHONHASHSEED=%s: quick graph exits %d: %s" % (h, p.returncode, " | ".join(sigs)), hashseed=int(h)))
+    return out, ran
+
+
 def finalize(cases, results, tier, seed):
     nd = {tuple(sorted(c["node"].items())) for c in cases}
+    if tier == "thorough":
+        hv, ran = _hashseed_edge(seed)
+        return hv, dict(hashseed_edge=ran, presentation_nodes=len(nd), depth_completed=max(ndepth(c["node"]) for c in cases), model_classes=len(MODELS))
     return [], dict(presentation_nodes=len(nd), depth_completed=max(ndepth(c["node"]) for c in cases), model_classes=len(MODELS))
 
 
